@@ -54,6 +54,7 @@ DataMatches(eruns, oruns) == Len(eruns) = Len(oruns) /\ \A i \in DOMAIN eruns : 
 Matches(e, o) ==
   CASE e.k = "Any"     -> o.k \notin {"Garbage", "None"}
     [] e.k = "None"    -> o.k = "None"
+    [] e.k = "Unjudged" -> TRUE
     [] e.k = "ReadNonPositive" -> o.k = "Read" /\ o.n <= 0 /\ o.runs = << >>
     [] e.k = "ReadDirSubset" -> o.k = "ReadDir" /\ SetOf(o.ents) \subseteq e.ents /\ Len(o.ents) = Cardinality(SetOf(o.ents))
     [] e.k = "ReadDir" -> /\ o.k = "ReadDir"
@@ -62,6 +63,8 @@ Matches(e, o) ==
     [] e.k = "Read"    -> o.k = "Read" /\ o.n = e.n /\ DataMatches(e.runs, o.runs)
     [] e.k = "Raw"     -> \/ o.k = "Raw" /\ DataMatches(e.runs, o.runs)
                           \/ o.k = "None" /\ e.runs = << >>          \* zero bytes requested
+    \* an honestly announced shorter count followed by exactly that many right bytes (only offered after a filesystem fault)
+    [] e.k = "ReadPrefix" -> o.k = "Read" /\ o.n >= 0 /\ o.n <= RunsLen(e.runs) /\ DataMatches(TruncRuns(e.runs, o.n), o.runs)
     [] e.k = "RawPrefix" -> \/ o.k = "Raw" /\ o.len <= RunsLen(e.runs) /\ DataMatches(TruncRuns(e.runs, o.len), o.runs)
                             \/ o.k = "None"                          \* the empty prefix
     [] OTHER           -> o.k = e.k /\ FieldsMatch(e, o)
